@@ -35,18 +35,18 @@ LEAN_TARGETS = ["PydraModel.Props.C17"]
 MODEL_TARGETS = ["PydraModel.Sched.Model", "PydraModel.DriverUtil"]
 
 
+def _tags(v):
+    """tags of the job values in a (possibly nested) list of outputs; a job value is ["J", tag, deps]"""
+    if isinstance(v, list) and len(v) == 3 and v[0] == "J" and isinstance(v[1], str):
+        return [v[1]]
+    if isinstance(v, list):
+        return [t for x in v for t in _tags(x)]
+    return [repr(v)]
+
+
 def out_tags(outputs, case):
     """per node: the tags of the jobs whose values make up the node's output"""
-    res = {}
-    for nd in case["nodes"]:
-        v = outputs.get(nd["name"]) if outputs else None
-        if v is None:
-            res[nd["name"]] = None
-        elif isinstance(v, list) and v and v[0] == "J":
-            res[nd["name"]] = [v[1]]
-        else:
-            res[nd["name"]] = [x[1] for x in v]
-    return res
+    return {nd["name"]: (None if not outputs or outputs.get(nd["name"]) is None else _tags(outputs[nd["name"]])) for nd in case["nodes"]}
 
 
 def configs(rng, case, n_sched, cf_procs):
@@ -112,10 +112,9 @@ CORPUS = sched.load_corpus("C17")
 
 def correspondence(ctx):
     core.assert_repo_loaded()
-    n_sched = ctx.pick(3, 12)
+    n_sched = ctx.pick(3, 8)
     cf = ctx.pick([2], [1, 2, 8])
-    judge_workflows(ctx, [dict(c) for c in CORPUS], n_sched, cf)
-    graphs = [sched.gen_graph(ctx.rng) for _ in range(ctx.pick(4, 40))]
+    graphs = [dict(c) for c in CORPUS] + [sched.gen_graph(ctx.rng) for _ in range(ctx.pick(3, 24))]
     judge_workflows(ctx, graphs, n_sched, cf)
 
 
@@ -127,7 +126,6 @@ def search(ctx):
 def replay(ctx, rec):
     c = rec["case"]
     g = {k: c[k] for k in ("nodes", "keep_state") if k in c}
-    ctx.rng  # noqa: B018
     obs = sched.run_cases([c], ctx.scratch)[0]
     ref = {k: sched.canon(v) for k, v in sched.reference_outputs(g).items()}
     ctx.judge(c, {"outcome": obs.get("outcome"), "outputs": out_tags(obs.get("outputs"), g)}, None,
